@@ -554,4 +554,135 @@ theorem chain_synced (tab : Nat → Content)
   · rintro ⟨s, hs', rfl⟩
     exact hR.fa.f1 s hs' (by have := hS.jx.inv.bound s hs'; omega)
 
+
+/-! ### two hops with a COMPACT (or any) aggregator that is never rolled back: `Conv` per hop, composed -/
+
+theorem conv_congrU (tab : Nat → Content) (R U U' : J) (he : U'.entries = U.entries) (hc : U'.cur = U.cur)
+    (h : Conv tab R U) : Conv tab R U' :=
+  ⟨by rw [he]; exact h.c1, by rw [he]; exact h.c2, ⟨h.c3.1, by rw [hc]; exact h.c3.2⟩, h.wfR, by rw [he]; exact h.wfU⟩
+
+theorem fileok_congrU (tab : Nat → Content) (f : File) (c : Bool) (U U' : J) (he : U'.entries = U.entries)
+    (hc : U'.cur = U.cur) (h : FileOK tab f c U) : FileOK tab f c U' := by
+  obtain ⟨Rs, a, b, d, e, g1, g2⟩ := h
+  exact ⟨Rs, a, conv_congrU tab Rs U U' he hc b, d, e, g1, g2⟩
+
+/-- the upstream receives a batch of well-formed entries (what `applyUpdate` adds): replica invariant and file invariant stay -/
+theorem conv_upAddAll (tab : Nat → Content) (c : Bool) (hT : TabOK tab c) : ∀ (es : List Entry) (U U' : J),
+    (∀ e ∈ es, e = mkEntry tab e.ver e.k) → JX U → addAll U es = some U' →
+    (∀ R, R.compact = c → Conv tab R U → Conv tab R U') ∧ (∀ f, FileOK tab f c U → FileOK tab f c U') := by
+  intro es
+  induction es with
+  | nil => intro U U' _ _ h; simp [addAll] at h; subst h; exact ⟨fun _ _ x => x, fun _ x => x⟩
+  | cons e r ih =>
+    intro U U' hw hU h
+    simp only [addAll] at h
+    split at h
+    · rename_i U1 h1
+      have he := hw e (by simp)
+      rw [he] at h1
+      obtain ⟨i1, i2⟩ := ih U1 U' (fun x hx => hw x (List.mem_cons_of_mem _ hx)) (add_jx _ _ _ hU h1) h
+      refine ⟨fun R hc hconv => i1 R hc (conv_upAdd tab R U U1 e.ver e.k (by rw [hc]; exact hT) hconv h1 hU),
+        fun f hf => i2 f (fileok_upAdd tab f c U U1 e.ver e.k hT hU hf h1)⟩
+    · simp at h
+
+/-- a schedule in which the aggregator is never restarted -/
+def NoRestartA (ops : List Op2) : Prop := ∀ op ∈ ops, ∀ k, op ≠ Op2.restartA k
+
+structure Inv2C (tab : Nat → Content) (w : W2) : Prop where
+  hop1 : WInv tab { U := w.S, R := w.A, file := w.fileA }
+  jG : JX w.G
+  conv2 : Conv tab w.G w.A
+  file2 : FileOK tab w.fileG w.G.compact w.A
+
+theorem step2c_inv (tab : Nat → Content) (w w' : W2) (op : Op2) (hTA : TabOK tab w.A.compact) (hTG : TabOK tab w.G.compact)
+    (hno : ∀ k, op ≠ Op2.restartA k) (hi : Inv2C tab w) (h : step2 tab w op = some w') :
+    Inv2C tab w' ∧ w'.A.compact = w.A.compact ∧ w'.G.compact = w.G.compact := by
+  cases op with
+  | src v k =>
+    simp only [step2] at h
+    split at h
+    · rename_i S' hS'
+      injection h with h; subst h
+      have := stepW_inv tab { U := w.S, R := w.A, file := w.fileA } { U := S', R := w.A, file := w.fileA } (.upAdd v k) hTA hi.hop1
+        (by simp [stepW, hS'])
+      exact ⟨⟨this.1, hi.jG, hi.conv2, hi.file2⟩, rfl, rfl⟩
+    · simp at h
+  | deliverA i b c =>
+    simp only [step2] at h
+    split at h
+    · rename_i p hp
+      injection h with h; subst h
+      have h1 := stepW_inv tab { U := w.S, R := w.A, file := w.fileA } { U := w.S, R := p.1, file := w.fileA } (.deliver i b c) hTA
+        hi.hop1 (by simp [stepW, hp])
+      -- seen from the agent, the aggregator received a batch of well-formed entries
+      have hq : (transport tab (diff w.S w.A.lv i b)).take c = transport tab ((diff w.S w.A.lv i b).take c) := by
+        simp [transport, List.map_take]
+      rw [hq] at hp
+      have key : (∀ R, R.compact = w.G.compact → Conv tab R w.A → Conv tab R p.1) ∧
+          (∀ f, FileOK tab f w.G.compact w.A → FileOK tab f w.G.compact p.1) := by
+        unfold applyUpdate at hp
+        split at hp
+        · injection hp with hp; subst hp; exact ⟨fun _ _ x => x, fun _ x => x⟩
+        · split at hp
+          · simp at hp
+          · rename_i j1 hj1
+            injection hp with hp; subst hp
+            have hw : ∀ e ∈ keptOf tab w.A (transport tab ((diff w.S w.A.lv i b).take c)), e = mkEntry tab e.ver e.k := by
+              intro e he
+              obtain ⟨u, _, f, _, rfl⟩ := kept_sound tab w.A _ e he
+              rfl
+            obtain ⟨a1, a2⟩ := conv_upAddAll tab w.G.compact hTG _ w.A j1 hw hi.hop1.jR hj1
+            exact ⟨fun R hc x => conv_congrU tab R j1 _ rfl rfl (a1 R hc x),
+              fun f x => fileok_congrU tab f _ j1 _ rfl rfl (a2 f x)⟩
+      exact ⟨⟨h1.1, hi.jG, key.1 w.G rfl hi.conv2, key.2 _ hi.file2⟩, h1.2, rfl⟩
+    · simp at h
+  | saveA =>
+    simp only [step2] at h
+    injection h with h; subst h
+    have h1 := stepW_inv tab { U := w.S, R := w.A, file := w.fileA } _ .save hTA hi.hop1 rfl
+    have he : (save w.A w.fileA).1.entries = w.A.entries ∧ (save w.A w.fileA).1.cur = w.A.cur := by
+      unfold save; split <;> exact ⟨rfl, rfl⟩
+    exact ⟨⟨h1.1, hi.jG, conv_congrU tab _ _ _ he.1 he.2 hi.conv2, fileok_congrU tab _ _ _ _ he.1 he.2 hi.file2⟩, h1.2, rfl⟩
+  | restartA keep => exact absurd rfl (hno keep)
+  | deliverG i b c =>
+    simp only [step2] at h
+    split at h
+    · rename_i p hp
+      injection h with h; subst h
+      obtain ⟨a1, a2, a3⟩ := conv_deliver tab w.G p.1 w.A p.2 i b c hTG hi.conv2 hi.jG hi.hop1.jR hp
+      exact ⟨⟨hi.hop1, a2, a1, by simp only [a3]; exact hi.file2⟩, rfl, a3⟩
+    · simp at h
+  | saveG =>
+    simp only [step2] at h
+    injection h with h; subst h
+    have hx := stepW_inv tab { U := w.A, R := w.G, file := w.fileG } _ .save hTG
+      ⟨hi.hop1.jR, hi.jG, hi.conv2, hi.file2⟩ rfl
+    exact ⟨⟨hi.hop1, hx.1.jR, hx.1.conv, hx.1.file⟩, rfl, hx.2⟩
+  | restartG keep =>
+    simp only [step2] at h
+    split at h
+    · rename_i p hp
+      injection h with h; subst h
+      have hx := stepW_inv tab { U := w.A, R := w.G, file := w.fileG } { U := w.A, R := p.1, file := truncate w.fileG keep }
+        (.restart keep) hTG ⟨hi.hop1.jR, hi.jG, hi.conv2, hi.file2⟩ (by simp [stepW, hp])
+      exact ⟨⟨hi.hop1, hx.1.jR, hx.1.conv, hx.1.file⟩, rfl, hx.2⟩
+    · simp at h
+
+theorem run2c_inv (tab : Nat → Content) : ∀ (ops : List Op2) (w w' : W2), TabOK tab w.A.compact → TabOK tab w.G.compact →
+    NoRestartA ops → Inv2C tab w → run2 tab w ops = some w' →
+    Inv2C tab w' ∧ w'.A.compact = w.A.compact ∧ w'.G.compact = w.G.compact := by
+  intro ops
+  induction ops with
+  | nil => intro w w' _ _ _ hi h; simp [run2] at h; subst h; exact ⟨hi, rfl, rfl⟩
+  | cons op r ih =>
+    intro w w' hA hG hno hi h
+    simp only [run2] at h
+    split at h
+    · rename_i w1 h1
+      obtain ⟨i1, c1, c2⟩ := step2c_inv tab w w1 op hA hG (fun k => hno op (by simp) k) hi h1
+      obtain ⟨i2, d1, d2⟩ := ih w1 w' (by rw [c1]; exact hA) (by rw [c2]; exact hG)
+        (fun o ho k => hno o (List.mem_cons_of_mem _ ho) k) i1 h
+      exact ⟨i2, d1.trans c1, d2.trans c2⟩
+    · simp at h
+
 end SH.C20
